@@ -64,6 +64,38 @@ def addAll : BSet → List Block → BSet × Nat
     | some s' => addAll s' bs
     | none => let (s'', n) := addAll s bs; (s'', n + 1)
 
+/-- the inner loop of `remove`: the first block with the id is cut out, the order of the others is kept
+    (`append(bs[:j], bs[j+1:]...)`); `none` = no block of this level has the id -/
+def removeFirst (id : Nat) : List Block → Option (List Block)
+  | [] => none
+  | b :: bs => if b.id = id then some bs else (removeFirst id bs).map (b :: ·)
+
+/-- the outer loop of `remove`: levels in order, return after the first hit -/
+def removeLevels (id : Nat) : List (List Block) → List (List Block)
+  | [] => []
+  | l :: ls =>
+    match removeFirst id l with
+    | some l' => l' :: ls
+    | none => l :: removeLevels id ls
+
+/-- `bucketBlockSet.remove(id)` -/
+def remove (s : BSet) (id : Nat) : BSet := { s with blocks := removeLevels id s.blocks }
+
+/-- a step of a history of a block set -/
+inductive Op where
+  | add (b : Block)
+  | remove (id : Nat)
+  deriving Repr
+
+/-- replay a history; a failing `add` leaves the set unchanged and is counted -/
+def run : BSet → List Op → BSet × Nat
+  | s, [] => (s, 0)
+  | s, .add b :: ops =>
+    match add s b with
+    | some s' => run s' ops
+    | none => let (s'', n) := run s ops; (s'', n + 1)
+  | s, .remove id :: ops => run (remove s id) ops
+
 /-- `appendMissing(bs, more...)`: append the blocks of `more` that `bs` does not hold yet -/
 def appendMissing : List Block → List Block → List Block
   | acc, [] => acc
